@@ -472,19 +472,19 @@ def _conflicts_between_fragments(
     for c in _conflicts_between(ctx, mutually_exclusive, fields_1, fields_2):
         yield c
 
-    # (G) Then collect conflicts between the first fragment and any nested
-    # fragments spread in the second fragment.
-    for i, fragment in enumerate(fragments_1):
+    # (G) Then collect conflicts between the second fragment and any nested
+    # fragments spread in the first fragment.
+    for fragment in fragments_1:
         for c in _conflicts_between_fragments(
-            ctx, mutually_exclusive, fragment, _at(fragment_2, i)
+            ctx, mutually_exclusive, fragment, fragment_2
         ):
             yield c
 
-    # (G) Then collect conflicts between the second fragment and any nested
-    # fragments spread in the first fragment.
-    for i, fragment in enumerate(fragments_2):
+    # (G) Then collect conflicts between the first fragment and any nested
+    # fragments spread in the second fragment.
+    for fragment in fragments_2:
         for c in _conflicts_between_fragments(
-            ctx, mutually_exclusive, _at(fragment_1, i), fragment
+            ctx, mutually_exclusive, fragment_1, fragment
         ):
             yield c
 
